@@ -68,11 +68,19 @@ def rules(ck, P):
                     root = ir.strip(root["e"] if root.get("k") == "field" else root["recv"])
                 desc = p1
                 okc = p1.endswith("get_parameters().tile_compression") and ir.local_hid(root) == src["hid"]
-                # the decompressed blob is what gets collected
-                bh_ = ir.local_hid(dc[0]["a"][0])
-                okc = okc and bh_ is not None and ir.contains(loops[0]["body"], lambda y: y.get("k") == "mcall" and y.get("name") == "push" and ir.local_hid(y["a"][0]) == bh_)
-                asg = ir.contains(loops[0]["body"], lambda y: y.get("k") == "assign" and ir.local_hid(y["l"]) == bh_ and ir.contains(y["r"], lambda z: z is dc[0]))
-                okc = okc and asg
+                # the decompressed blob is what gets collected: every push in the loop takes the decompress call itself or a local
+                # that was (re)bound to it (`blob = decompress(blob, ..)?; v.push(blob)` and `v.push(decompress(raw, ..)?)` alike)
+                def from_dc(e):
+                    return ir.contains(e, lambda z: z is dc[0])
+                bound = {ir.local_hid(y["l"]) for y in ir.walk_nodes(loops[0]["body"]) if y.get("k") == "assign" and from_dc(y["r"])}
+                bound |= {x["hid"] for y in ir.walk_nodes(loops[0]["body"]) if y.get("k") == "let" and "init" in y and from_dc(y["init"]) and y["pat"].get("k") == "bind"
+                          for x in ir.pat_binds(y["pat"])}
+                bound.discard(None)
+                # a local bound to the call and later overwritten with something else no longer holds it
+                other = {ir.local_hid(y["l"]) for y in ir.walk_nodes(loops[0]["body"]) if y.get("k") == "assign" and not from_dc(y["r"])}
+                bound -= other
+                pushes = [y for y in ir.walk_nodes(loops[0]["body"]) if y.get("k") == "mcall" and y.get("name") in ("push", "push_back", "insert", "extend", "append", "extend_from_slice")]
+                okc = okc and bool(pushes) and all(y.get("name") == "push" and (from_dc(y["a"][0]) or ir.local_hid(y["a"][0]) in bound) for y in pushes)
         ck.check(okc, "E-COMP", fn["q"] + "|" + path, "%s: each source's blob is decoded with that source's declared compression before merging (%s)" % (path, desc),
                  "%s: blobs are not decoded with the producing source's declared compression (%s)" % (path, desc), ir.loc(fn))
     b = builds[0]
@@ -90,7 +98,27 @@ def rules(ck, P):
     ck.check(okt, "E-COMP", m["q"] + "|output", "merge_tiles returns the uncompressed VectorTile::to_blob()", "merge_tiles output is post-processed", ir.loc(m))
 
     # ---------------- R-GROUP
-    loops = [n for n in ir.walk_nodes(m["body"]) if n.get("k") == "for"]
+    # private helpers of the module are inlined (`collect_layer(&mut layers, new_layer)?` is the same grouping), and locals are
+    # followed through `let p = x` / `let p = &mut x` re-bindings (which is what inlining a call produces)
+    mi = ir.inline_helpers(P, m, ir.same_impl_helper(m))
+    al_ = {}
+    for n in ir.walk_nodes(mi["body"]):
+        if n.get("k") == "let" and "init" in n and n["pat"].get("k") == "bind" and ir.local_hid(n["init"]) is not None:
+            al_[n["pat"]["hid"]] = ir.local_hid(n["init"])
+
+    def ch(e):
+        h, k_ = ir.local_hid(e), 0
+        while h in al_ and k_ < 10:
+            h, k_ = al_[h], k_ + 1
+        return h
+
+    def name_of(e, h):
+        # `<h>.name`, possibly cloned / borrowed
+        e = ir.unparen(ir.strip(e))
+        while e is not None and e.get("k") == "mcall" and e.get("name") in ("clone", "to_owned", "to_string", "as_str") and not e.get("a"):
+            e = ir.unparen(ir.strip(e["recv"]))
+        return e is not None and e.get("k") == "field" and e.get("name") == "name" and ch(e["e"]) == h
+    loops = [n for n in ir.walk_nodes(mi["body"]) if n.get("k") == "for"]
     okg = False
     why = ""
     if len(loops) == 2:
@@ -99,17 +127,17 @@ def rules(ck, P):
         it_ = ir.strip(outer["iter"])
         while it_ is not None and it_.get("k") == "mcall" and it_.get("name") in ("into_iter", "iter") and not it_.get("a"):
             it_ = ir.strip(it_["recv"])
-        order_ok = bool(bp_) and ir.local_hid(it_) == bp_[0]["hid"]
+        order_ok = bool(bp_) and ch(it_) == bp_[0]["hid"]
         nl = ir.pat_binds(inner["pat"])[0]
         tile_ok = ir.strip(inner["iter"]).get("k") == "field" and ir.strip(inner["iter"]).get("name") == "layers" or ".layers" in ir.place_str(inner["iter"])
         mapl = [n for n in ir.walk_nodes(m["body"]) if n.get("k") == "let" and n["pat"].get("k") == "bind" and "HashMap<" in n["pat"].get("t", "") and "VectorTileLayer" in n["pat"].get("t", "")]
         mh_ = mapl[0]["pat"]["hid"] if len(mapl) == 1 else None
-        gets = [n for n in ir.walk_nodes(inner["body"]) if n.get("k") == "mcall" and n.get("name") in ("get_mut", "entry") and mh_ is not None and ir.local_hid(n["recv"]) == mh_]
-        ins = [n for n in ir.walk_nodes(inner["body"]) if n.get("k") == "mcall" and n.get("name") == "insert" and mh_ is not None and ir.local_hid(n["recv"]) == mh_]
+        gets = [n for n in ir.walk_nodes(inner["body"]) if n.get("k") == "mcall" and n.get("name") in ("get_mut", "entry") and mh_ is not None and ch(n["recv"]) == mh_]
+        ins = [n for n in ir.walk_nodes(inner["body"]) if n.get("k") == "mcall" and n.get("name") == "insert" and mh_ is not None and ch(n["recv"]) == mh_]
         adds = [n for n in ir.walk_nodes(inner["body"]) if n.get("k") == "mcall" and (n.get("q") or "").endswith("VectorTileLayer::add_from_layer")]
-        key_ok = bool(gets) and ir.place_str(gets[0]["a"][0]).endswith(nl["name"] + ".name")
-        ins_ok = len(ins) == 1 and ir.place_str(ins[0]["a"][0]).startswith(nl["name"] + ".name") and ir.local_hid(ins[0]["a"][1]) == nl["hid"]
-        add_ok = len(adds) == 1 and ir.local_hid(adds[0]["a"][0]) == nl["hid"]
+        key_ok = bool(gets) and all(name_of(g_["a"][0], nl["hid"]) for g_ in gets)
+        ins_ok = len(ins) == 1 and name_of(ins[0]["a"][0], nl["hid"]) and ch(ins[0]["a"][1]) == nl["hid"]
+        add_ok = len(adds) == 1 and ch(adds[0]["a"][0]) == nl["hid"]
         okg = order_ok and tile_ok and key_ok and ins_ok and add_ok
         why = "order=%s key=%s insert=%s add=%s" % (order_ok, key_ok, ins_ok, add_ok)
     ck.check(okg, "R-GROUP", m["q"], "layers are grouped by their own name, in blob (= source) order: same name -> add_from_layer, new name -> insert",
@@ -121,31 +149,68 @@ def rules(ck, P):
     afl = [b2 for b2 in P.bodies if b2["q"].endswith("VectorTileLayer::add_from_layer")]
     avf = [b2 for b2 in P.bodies if b2["q"].endswith("VectorTileLayer::add_vector_tile_features")]
     if ck.anchor("R-TAG-OWNER", "add_from_layer + add_vector_tile_features", afl + avf, 2):
-        b2 = afl[0]
-        lp = [x for p in b2["params"] for x in ir.pat_binds(p) if "VectorTileLayer" in x["t"] and x["name"] != "self"]
+        # the helper that re-encodes and appends is inlined, so `self.add_vector_tile_features(f, p)` and its two statements written
+        # in place are the same thing; locals are followed through plain re-bindings
+        b2 = ir.inline_helpers(P, afl[0], lambda cb: cb["q"].endswith("VectorTileLayer::add_vector_tile_features") or ir.same_impl_helper(afl[0])(cb))
+        allp = [x for p in b2["params"] for x in ir.pat_binds(p)]
+        lp = [x for x in allp if "VectorTileLayer" in x["t"] and x["name"] not in ("self", "__self")]
+        sp = [x for x in allp if x["name"] in ("self", "__self")]
+        al2 = {}
+        for n in ir.walk_nodes(b2["body"]):
+            if n.get("k") == "let" and "init" in n and n["pat"].get("k") == "bind" and ir.local_hid(n["init"]) is not None:
+                al2[n["pat"]["hid"]] = ir.local_hid(n["init"])
+
+        def ch2(e):
+            h, k_ = ir.local_hid(e), 0
+            while h in al2 and k_ < 10:
+                h, k_ = al2[h], k_ + 1
+            return h
+
+        def is_features_of(e, h):
+            e = ir.unparen(ir.strip(e))
+            return e is not None and e.get("k") == "field" and e.get("name") == "features" and ch2(e["e"]) == h
         dec = [n for n in ir.walk_nodes(b2["body"]) if n.get("k") == "mcall" and (n.get("q") or "").endswith("decode_tag_ids")]
-        add = [n for n in ir.walk_nodes(b2["body"]) if n.get("k") == "mcall" and (n.get("q") or "").endswith("add_vector_tile_features")]
+        enc = [n for n in ir.walk_nodes(b2["body"]) if n.get("k") == "mcall" and (n.get("q") or "").endswith("VectorTileLayer::encode_tag_ids")]
         floops = [n for n in ir.walk_nodes(b2["body"]) if n.get("k") == "for"]
         oko = False
-        if lp and len(dec) == 1 and len(add) == 1 and len(floops) == 1:
+        if lp and sp and len(dec) == 1 and len(enc) == 1 and len(floops) == 1:
             fv = ir.pat_binds(floops[0]["pat"])[0]
-            oko = ir.local_hid(dec[0]["recv"]) == lp[0]["hid"] and ir.place_str(dec[0]["a"][0]).endswith(fv["name"] + ".tag_ids") and \
-                ir.place_str(add[0]["recv"]) == "self" and ir.local_hid(add[0]["a"][0]) == fv["hid"]
-            # properties passed are the decoded ones
+            da = ir.unparen(ir.strip(dec[0]["a"][0]))
+            oko = ch2(dec[0]["recv"]) == lp[0]["hid"] and da.get("k") == "field" and da.get("name") == "tag_ids" and ch2(da["e"]) == fv["hid"]
+            # properties passed on are the decoded ones
             ph = None
             for n in ir.walk_nodes(floops[0]["body"]):
-                if n.get("k") == "let" and "init" in n and ir.contains(n["init"], lambda y: y is dec[0]):
-                    ph = ir.pat_binds(n["pat"])[0]["hid"]
-            oko = oko and ir.local_hid(add[0]["a"][1]) == ph
-            # features come from the incoming layer, in order
+                if n.get("k") == "let" and "init" in n and n["pat"].get("k") == "bind" and ir.contains(n["init"], lambda y: y is dec[0]):
+                    ph = n["pat"]["hid"]
+            oko = oko and ch2(enc[0]["recv"]) == sp[0]["hid"] and (ch2(enc[0]["a"][0]) == ph or ir.contains(enc[0]["a"][0], lambda y: y is dec[0]))
+            # the moved feature gets the new ids (nothing else of it is rewritten) and is appended to self
+            fw = [n for n in ir.walk_nodes(floops[0]["body"]) if n.get("k") in ("assign", "assignop") and n["l"].get("k") == "field" and ch2(n["l"]["e"]) == fv["hid"]]
+            oko = oko and len(fw) == 1 and fw[0]["k"] == "assign" and fw[0]["l"]["name"] == "tag_ids" and ir.contains(fw[0]["r"], lambda y: y is enc[0])
+            psh = [n for n in ir.walk_nodes(floops[0]["body"]) if n.get("k") == "mcall" and n.get("name") in ("push", "insert", "push_front") and is_features_of(n["recv"], sp[0]["hid"])]
+            oko = oko and len(psh) == 1 and psh[0]["name"] == "push" and ch2(psh[0]["a"][0]) == fv["hid"]
+            # features come from the incoming layer, in order: swapped / taken out of `layer.features`, or iterated directly
             src_ok = False
+            it0 = ir.unparen(ir.strip(floops[0]["iter"]))
+            while it0 is not None and it0.get("k") == "mcall" and it0.get("name") in ("into_iter", "drain") and ch2(it0) is None:
+                if it0["name"] == "drain" and not (len(it0.get("a", ())) == 1 and it0["a"][0].get("k") in ("range", "struct") and ".." in (it0["a"][0].get("src") or "..")):
+                    break
+                it0 = ir.unparen(ir.strip(it0["recv"]))
+            if is_features_of(it0, lp[0]["hid"]):
+                src_ok = True
+            ih = ch2(it0)
             for n in ir.walk_nodes(b2["body"]):
-                if n.get("k") == "call" and (n.get("q") or "").endswith("mem::swap"):
-                    swapped = [a for a in n["a"] if ir.contains(a, lambda y: y.get("k") == "field" and y.get("name") == "features" and ir.local_hid(y["e"]) == lp[0]["hid"])]
-                    others = [ir.local_hid(ir.strip(a)["e"] if ir.strip(a).get("k") == "ref" else a) for a in n["a"] if a not in swapped]
-                    src_ok = len(swapped) == 1 and len(others) == 1 and ir.local_hid(floops[0]["iter"]) is not None and \
-                        ir.local_hid(floops[0]["iter"]) in {ir.local_hid(y) for a in n["a"] if a not in swapped for y in ir.walk_nodes(a)}
+                if ih is None:
+                    break
+                if n.get("k") == "call" and (n.get("q") or "").endswith("mem::swap") and len(n["a"]) == 2:
+                    swapped = [a for a in n["a"] if is_features_of(a, lp[0]["hid"])]
+                    others = [ch2(a) for a in n["a"] if not is_features_of(a, lp[0]["hid"])]
+                    src_ok = src_ok or (len(swapped) == 1 and others == [ih])
+                if n.get("k") == "let" and "init" in n and n["pat"].get("k") == "bind" and n["pat"]["hid"] == ih:
+                    i_ = ir.unparen(ir.strip(n["init"]))
+                    if i_.get("k") == "call" and (i_.get("q") or "").endswith(("mem::take", "mem::replace")) and is_features_of(i_["a"][0], lp[0]["hid"]):
+                        src_ok = True
             oko = oko and src_ok
+        b2 = afl[0]
         ck.check(oko, "R-TAG-OWNER", b2["q"], "tags are decoded with the incoming layer's tables, the moved feature is added to self with those properties, in order",
                  "add_from_layer does not decode with the origin layer's tables / move features in order", ir.loc(b2))
         b3 = avf[0]
@@ -158,16 +223,39 @@ def rules(ck, P):
                  "add_vector_tile_features rewrites %s / does not append the feature" % wr, ir.loc(b3))
 
     # ---------------- R-EXISTS
-    sts = ir.stmts_of(ir.fn_block(gtd))
+    fblk = ir.fn_block(gtd)
+    sts = list(ir.stmts_of(fblk))
+    if ir.unparen(fblk).get("tail") is not None:
+        sts.append(ir.unparen(fblk)["tail"])
     oke = False
-    for s in sts:
+
+    def _is_none(y):
+        return (y.get("q") or "").endswith("Option::None::{Ctor#0}")
+
+    def _is_merge(y):
+        return y.get("k") == "call" and (y.get("q") or "").endswith("::merge_tiles")
+    for si, s in enumerate(sts):
         x = s["e"] if s.get("k") == "semi" else s
         if x.get("k") == "if":
             c = ir.unparen(x["c"])
-            mt_ = [y for y in ir.walk_nodes(x) if y.get("k") == "call" and (y.get("q") or "").endswith("::merge_tiles")]
+            neg = False
+            while c.get("k") == "un" and c.get("op") == "!":
+                c, neg = ir.unparen(c["e"]), not neg
+            after = sts[si + 1:]
+            mt_ = [y for z in [x] + after for y in ir.walk_nodes(z) if _is_merge(y)]
             if c.get("k") == "mcall" and c.get("name") == "is_empty" and mt_ and ir.local_hid(c["recv"]) is not None and ir.local_hid(c["recv"]) == ir.local_hid(mt_[0]["a"][0]):
-                oke = ir.contains(x["then"], lambda y: (y.get("q") or "").endswith("Option::None::{Ctor#0}")) and "else" in x and \
-                    ir.contains(x["else"], lambda y: y.get("k") == "call" and (y.get("q") or "").endswith("::merge_tiles"))
+                empty_arm, full_arm = (x.get("else"), x["then"]) if neg else (x["then"], x.get("else"))
+                if empty_arm is not None and full_arm is not None:
+                    # if blobs.is_empty() { None } else { merge }
+                    oke = ir.contains(empty_arm, _is_none) and not ir.contains(empty_arm, _is_merge) and ir.contains(full_arm, _is_merge) and not ir.contains(full_arm, _is_none)
+                elif empty_arm is not None and not neg:
+                    # if blobs.is_empty() { return Ok(None) }  ...  Ok(Some(merge))
+                    leaves = ir.contains(empty_arm, lambda y: y.get("k") == "ret" and ir.contains(y, _is_none)) and not ir.contains(empty_arm, _is_merge)
+                    oke = leaves and any(ir.contains(z, _is_merge) for z in after) and not any(ir.contains(z, _is_none) for z in after)
+                elif full_arm is not None and neg:
+                    # if !blobs.is_empty() { return Ok(Some(merge)) }  ...  Ok(None)
+                    leaves = ir.contains(full_arm, lambda y: y.get("k") == "ret" and ir.contains(y, _is_merge)) and not ir.contains(full_arm, _is_none)
+                    oke = leaves and any(ir.contains(z, _is_none) for z in after) and not any(ir.contains(z, _is_merge) for z in after)
     ck.check(oke, "R-EXISTS", gtd["q"], "lookup: no tile iff no source delivered one; otherwise the merge of all delivered blobs",
              "lookup existence does not follow `blobs.is_empty()`", ir.loc(gtd))
     fm = [n for n in ir.walk_nodes(gts["body"]) if n.get("k") == "mcall" and n.get("name") == "filter_map" and n["a"] and n["a"][0].get("k") == "closure"]
